@@ -9,6 +9,8 @@ VP(name, p)  == [k |-> "var", segs |-> <<[t |-> "k", v |-> name], [t |-> "k", v 
 VI(name, i)  == [k |-> "var", segs |-> <<[t |-> "k", v |-> name], [t |-> "i", i |-> i]>>]
 S(s)         == [k |-> "str", v |-> s]
 I(n)         == [k |-> "int", n |-> n]
+\* an integer literal written in another way (exponent form)
+IntT(txt, n) == [k |-> "int", n |-> n, txt |-> txt]
 \* a float literal: its text and the number it denotes (dm / 10^de)
 FloatE(txt, dm, de) == [k |-> "float", txt |-> txt, dm |-> dm, de |-> de]
 NilE         == [k |-> "nil"]
@@ -74,6 +76,7 @@ Path(segs) == [k |-> "var", segs |-> segs]
 Key(s) == [t |-> "k", v |-> s]
 KeyB(s) == [t |-> "k", v |-> s, br |-> TRUE]
 Idx(i) == [t |-> "i", i |-> i]
+IdxS(i) == [t |-> "i", i |-> i, sh |-> TRUE]        \* written .0 (migration.md "Shorthand array indexes")
 Sub(segs) == [t |-> "p", p |-> segs]
 TableRow(n, it, itsrc, limit, offset, cols, b) ==
   [k |-> "tablerow", n |-> n, it |-> it, itsrc |-> itsrc, limit |-> limit, offset |-> offset, rev |-> FALSE,
